@@ -701,6 +701,17 @@ def run_history(envh: Any, seq: Sequence[str], calls: CallSet, expected: Dict[st
     return len(seq), None
 
 
+def classify_history_failure(ctor: str, name: str, calls: CallSet, expected: Dict[str, Any]) -> str:
+    """A call in an eager history differs from the jit result of a fresh instance: if the very same eager call
+    on a new object with an empty history differs too, the history is not the cause (eager != jit)."""
+    fn, args = calls.args(name)
+    try:
+        alone = canon(getattr(_make(ctor), fn)(*args))
+    except Exception:  # noqa: BLE001
+        return "history-dependent-result"
+    return f"{fn}:eager-vs-jit-differs" if leaf_diff(expected[name], alone) else "history-dependent-result"
+
+
 def run_histories(cx: Ctx, env: Any, twin: Any, gx: GraphExec, ctor: str, actions: np.ndarray, root_s: Any,
                   root_ts: Any, tier: str, eager_cheap: bool, env_jit: Dict[str, Any]) -> Dict[str, Any]:
     L = BOUNDS[tier]["hist_len"]
@@ -772,6 +783,8 @@ def run_histories(cx: Ctx, env: Any, twin: Any, gx: GraphExec, ctor: str, action
             cx.count("n_argument_checks", n_calls)
             if bad:
                 i, what, d = bad
+                if what == "history-dependent-result":
+                    what = classify_history_failure(ctor, seq[i], calls, expected)
                 cx.violation(what, f"call #{i + 1} {seq[i]} after history {list(seq[:i])} on one object (eager) "
                              f"{'modified its arguments' if what == 'argument-mutated' else 'differs from the same call on a fresh instance'}: {d[:4]}",
                              dict(base, kind="history", mode="eager", history=list(seq[: i + 1]), failing=i))
@@ -794,7 +807,8 @@ def run_histories(cx: Ctx, env: Any, twin: Any, gx: GraphExec, ctor: str, action
             cx.count("n_history_eager_calls", n_calls)
             cx.count("n_argument_checks", n_calls)
             if bad:
-                cx.violation(bad[1], f"first call {c1} on a new object (eager): {bad[2][:4]}",
+                what = classify_history_failure(ctor, c1, calls, expected) if bad[1] == "history-dependent-result" else bad[1]
+                cx.violation(what, f"first call {c1} on a new object (eager): {bad[2][:4]}",
                              dict(base, kind="history", mode="eager", history=[c1], failing=0))
                 continue
             n_p, badp = probe_after_history(envh, calls, fresh_prog, expected)
